@@ -16,5 +16,11 @@ def headerBufLen : Nat := 16
 /-- the call that fills `saltHeader` in DecryptStreamTo: `io.ReadFull(stream, saltHeader)` -/
 def headerReadCall : String := "io.ReadFull"
 def headerRead : Golib.C09.HeaderRead := .readFull
+/-- body of strz.Base64Decode -/
+def base64DecodeBody : String := "dst := make([]byte, enc.DecodedLen(len(s))); n, err := enc.Decode(dst, UnsafeStrOrBytesToBytes(s)); return dst[:n], err"
+/-- body of strz.HexDecode -/
+def hexDecodeBody : String := "dst := make([]byte, hex.DecodedLen(len(s))); n, err := hexDecode(dst, s); return dst[:n], err"
+def decryptDecodeCall : String := "strz.Base64Decode(cipherText, base64.StdEncoding)"
+def gcmDecryptDecodeCall : String := "strz.HexDecode(cipherText)"
 
 end Golib.Gen.C09
